@@ -4,6 +4,54 @@ HERE = os.path.dirname(os.path.dirname(os.path.abspath(__file__)))
 BASELINE = "cd /repo && /venv/bin/python -m pytest -ra -q -p no:cacheprovider --timeout=900 --continue-on-collection-errors"
 
 CLAIMED = {
+    "C01": dict(
+        text="Lean 4 theorems, for every command list of every length (induction), over any scalar type: the library's builder, which "
+             "keeps no interpreter state and recomputes current point, subpath start and smooth control from the stored segments at every "
+             "command (Model/PathBuild), produces exactly the segment list of the SVG 2 chapter 9 interpreter with explicit state "
+             "(Spec/PathSpec.interp): one segment per argument group, same kinds and order, same absolute start/control/end from relative "
+             "offsets, H/V as lines, close to the subpath start, smooth commands reflecting only a control point of the same degree, "
+             "segment-completing z; every segment starts where its predecessor ended and every close returns to its subpath start. The "
+             "lexical parser (four regex scanners, 20-branch dispatch loop, inline close) is modelled in Model/PathParse and tied to "
+             "the code together with the token-level model by differential execution on all 400 ordered letter pairs x {M,m}, random "
+             "conforming command lists with random conforming layouts and a literal corpus; the Lean specification interpreter is "
+             "evaluated on the generator's AST and compared with what Path(d) returns (failing-input search).",
+        note="Partial: the lexer round trip (render then tokenise, any layout/number spelling) is validated by the exhaustive/random "
+             "correspondence, not proved; theorems are token-level and on. float(text) vs exact value: IEEE gap. Arcs are compared "
+             "through an F.6.5 evaluator written from the specification (C05).",
+        technique="Lean 4 proof (list induction with a state-reconstruction invariant) + differential correspondence (char-level and token-level models) + Lean specification interpreter as oracle",
+        ref="DESIGN.md §4 C01"),
+    "C09": dict(
+        text="Lean 4 theorems about the character-level model of SVGLexicalParser + Path callbacks (Model/PathParse, Model/PathBuild), "
+             "in which Python's partiality is explicit (None operands, TypeError on None arithmetic, AttributeError on None.attr, "
+             "IndexError, and a marker for a loop iteration that consumes nothing): for EVERY list of characters and every "
+             "well-formed existing path, parsing ends with no exception or ValueError - no other kind is reachable; every while loop "
+             "consumes at least one character per iteration (termination); what is retained stays well-formed, so the result holds "
+             "for any history of appended strings. Proved via scanner progress lemmas, 'no number here persists' lemmas (a missing "
+             "arc flag implies ValueError before Path.arc sees a None radius), callback lemmas and functional induction over the six "
+             "loops. Model tied to the code on a malformed stream (truncations at every position, token edits, noise, exhaustive "
+             "short strings, corpus, long inputs): exception class and retained segments compared; follow-up d()/bbox()/length()/"
+             "abs(p*M) and a prefix-retention relation evaluated on the implementation; a pure-Python reference interpreter judges "
+             "disagreements.",
+        note="Partial: 'every retained coordinate is a real number' is decided by correspondence+oracle, not by theorem, and is FALSE for "
+             "move-less fragments (known finding C09-moveless-fragment); time complexity is a wall-clock budget, not a theorem; float "
+             "overflow by addition of finite literals is outside the exact model. Three fix: commits (A without flags, smooth without "
+             "current point, overflowing literal).",
+        technique="Lean 4 proof (functional induction over the parser loops, scanner progress lemmas) + differential correspondence on malformed inputs + reference-interpreter judge",
+        ref="DESIGN.md §4 C09"),
+    "C17": dict(
+        text="Lean 4 theorems for all command lists, all split points and all histories (induction over the list of pieces): because the "
+             "interpreter's state is a function of the segment list only, running b on the path built from a equals running a++b "
+             "(also when a raises), any sequence of appended pieces equals one parse of their concatenation, the result is the SVG 2 "
+             "interpretation of the joined list (by C01), and the segments already stored are kept as a prefix. Tied to the code by "
+             "differential execution of the character-level model on the pieces in sequence (Path(a)+b, +=, .parse, mixed, "
+             "Move(..)+b), compared with the library and with the model's parse of the joined string; the relation "
+             "Path(a)+b+... == Path(a b ...) and the side-by-side relation for Path+Path (appended once/twice, operand observed and "
+             "mutated afterwards) and Path+Shape are evaluated directly on the implementation.",
+        note="Partial: continuation at character level (lexing of a ++ ' ' ++ b) is validated by correspondence, the theorems are "
+             "token-level; Path+Path/Path+Shape are decided by the oracle relation. Path.append(str)/extend(str) parse stand-alone "
+             "and are outside the statement.",
+        technique="Lean 4 proof (foldlM append / induction over histories, reuse of the C01 refinement) + differential correspondence + relation oracle on the implementation",
+        ref="DESIGN.md §4 C17"),
     "C04": dict(
         text="Lean 4 theorems over an arbitrary field: point application/composition associativity, two-sided inverse, "
              "every pre_/post_ operation = left/right multiplication by the elementary matrix about its centre, and "
